@@ -3,6 +3,7 @@ import json
 
 from . import c04
 from .. import gen, json_ref, model, rt
+from .c01 import SIZES_RULE
 from ..core import Acc, Violation, guarded, run_hypothesis, shard_seed
 
 PROPERTY = 'C06'
@@ -12,7 +13,7 @@ RULE = ('the grids of C01 are dumped by hszinc in JSON mode and the text alone i
         'object / string with a known type prefix whose payload matches that kind\'s lexical form (independent reader '
         'json_ref, shares no code with hszinc), every string prefix agreeing with the model kind, Remove spelled per version, '
         'and the value read back equal to the model (numbers, quantities, coordinates to six decimals). Same for '
-        'dump_scalar. Non-trivial and distinct as C01.')
+        'dump_scalar. Non-trivial and distinct as C01.' + SIZES_RULE)
 ASSUMPTIONS = ['lexical forms as pinned in DESIGN.md Appendix B', 'tolerance abs(a-b) <= 5e-7 + 1e-12|a| on float payloads only']
 FEATURES = {}
 EXHAUSTIVE_CLAIM = False
@@ -170,6 +171,7 @@ def plan(tier, seed, excl):
     t.append(('after-failed-dump', {}))
     t += [('catalogue-grids', {'shard': i, 'of': 2}) for i in range(2)]
     t += [('scalars', {'shard': i, 'n': 6000 if q else 80000}) for i in range(6)]
+    t += [('sizes', {'shard': i, 'of': 8, 'tier': tier}) for i in range(8)]
     t += [('grids', {'shard': i, 'n': 2500 if q else 40000}) for i in range(16)]
     return t
 
@@ -214,6 +216,9 @@ def run(part, args, env):
             except Violation as v:
                 acc.violation(v)
         acc.exhaustive['every kind sample x every position x versions'] = True
+    elif part == 'sizes':
+        from .c01 import sizes_part
+        sizes_part(acc, args, check_doc)
     elif part == 'scalars':
         strat = st.sampled_from(['2.0', '3.0']).flatmap(
             lambda v: gen.values(v, depth=1, excl=excl).map(lambda m: {'kind': 'scalar', 'ver': v, 'value': m}))
